@@ -44,7 +44,7 @@ pub fn cases(thorough: bool, seed: u64) -> Vec<Params> {
                 }
             }
         }
-        for aux in 0..6u64 {
+        for aux in 0..7u64 {
             out.push(Params { n, t, ids: IdSet::Default, subset: (0..t as usize).collect(), variant: V_STRUCT, aux, seed });
         }
     }
@@ -245,6 +245,26 @@ fn structural<C: Ciphersuite, L: Lab<C>>(lab: &mut L, p: &Params, keys: &Keys<C>
                 let m = lab.mark();
                 let r = fc::verify_signature_share(b, &keys.1.verifying_shares()[&b], &honest[&a], &sess.package, keys.1.verifying_key());
                 lab.expect_reject(m, r.is_ok(), "another signer's honest share is rejected under this signer's identifier");
+            }
+        }
+        6 => {
+            // fewer honest signers than the real threshold, public key package without / with an understated
+            // threshold: every share is honest, nothing adds up — no signature may be released in any mode
+            if p.t >= 2 {
+                let few: Vec<usize> = (0..p.t as usize - 1).collect();
+                let lowered: BTreeMap<_, _> = keys.0.iter().map(|(id, kp)| (*id, fc::keys::KeyPackage::new(*id, *kp.signing_share(), *kp.verifying_share(), *kp.verifying_key(), 1))).collect();
+                for min in [None, Some(1u16)] {
+                    let pk = fc::keys::PublicKeyPackage::new(keys.1.verifying_shares().clone(), *keys.1.verifying_key(), min);
+                    let k2: Keys<C> = (lowered.clone(), pk.clone());
+                    let sess2 = open_session::<C, L>(lab, &k2, &few, sess.message.clone());
+                    if let Some(sh2) = sign_all::<C, L>(lab, &k2, &sess2) {
+                        for m in modes() {
+                            let mk = lab.mark();
+                            let r = fc::aggregate_custom(&sess2.package, &sh2, &pk, m);
+                            lab.expect_reject(mk, r.is_ok(), "fewer than t honest shares never aggregate into a released signature, whatever threshold the public key package records");
+                        }
+                    }
+                }
             }
         }
         _ => {
